@@ -273,6 +273,7 @@ func (g *cgen) curated() []ccase {
 		{"digest-delete-vs-tag-push-same-manifest", []string{setupBlob, mput("r1", "t1", "@m1")}, [][]string{{mdel("r1", "@m1")}, {mput("r1", "t2", "@m1")}}},
 		{"tag-delete-vs-other-tag-same-manifest", []string{setupBlob, mput("r1", "t1", "@m1")}, [][]string{{mdel("r1", "t1")}, {mput("r1", "t2", "@m1")}}},
 		{"artifact-push-vs-delete-same-digest", append(append([]string{}, s...), mput("r1", "@a1", "@a1")), [][]string{{mput("r1", "@a1", "@a1")}, {mdel("r1", "@a1")}}},
+		{"new-artifact-push-vs-delete-same-digest", s, [][]string{{mput("r1", "@a1", "@a1")}, {mdel("r1", "@a1")}}},
 		{"manifest-push-vs-delete-same-digest", []string{setupBlob, mput("r1", "@m1", "@m1")}, [][]string{{mput("r1", "@m1", "@m1")}, {mdel("r1", "@m1")}}},
 		{"two-deletes-one-tag", []string{setupBlob, mput("r1", "t1", "@m1")}, [][]string{{mdel("r1", "t1")}, {mdel("r1", "t1")}}},
 		{"two-deletes-one-digest", []string{setupBlob, mput("r1", "t1", "@m1")}, [][]string{{mdel("r1", "@m1")}, {mdel("r1", "@m1")}}},
@@ -292,6 +293,14 @@ func (g *cgen) curated() []ccase {
 		{"three-artifacts-one-subject", s, [][]string{{mput("r1", "@a1", "@a1")}, {mput("r1", "@a2", "@a2")}, {mput("r1", "@a3", "@a3")}}},
 		{"artifact-push-delete-read", append(append([]string{}, s...), mput("r1", "@a2", "@a2")), [][]string{{mput("r1", "@a1", "@a1")}, {mdel("r1", "@a2")}, {"REFS r1 sha256:@s1"}}},
 	}
+}
+
+// tagRace: tag moves on one digest racing with reads of that tag and the listing (free-running stress under the race
+// detector: the index a handler got from IndexGet is read while another handler's AddDesc/RmDesc rewrites entries and
+// annotation maps of the store's index)
+func (g *cgen) tagRace() ccase {
+	return ccase{"tag-moves-vs-reads", []string{setupBlob, mput("r1", "t1", "@m1"), mput("r1", "t2", "@m2")},
+		[][]string{{mput("r1", "t2", "@m1"), mput("r1", "t1", "@m2")}, {mget("r1", "t1"), "TAGS r1"}, {mput("r1", "t1", "@m1")}}}
 }
 
 // randomCase: a random setup and k threads over one or two repositories
